@@ -447,3 +447,174 @@ Proof.
       right. apply Ha. right. right. right. assumption.
   - intros x Hx. apply lookup_apply_ext. right. assumption.
 Qed.
+
+(* ------------------------------------------------------------------ steps and folds *)
+Lemma step_decide : forall c f b o g b',
+  step c f b o = Ok (g, b') -> exists e, decide c f b o = Ok (e, b') /\ g = apply e f.
+Proof.
+  intros c f b o g b' H. unfold step in H. destruct (decide c f b o) as [[e b1]|code]; [|discriminate].
+  inversion H; subst. eauto.
+Qed.
+
+Lemma step_keeps_inv : forall c N f b o g b',
+  inv c N b -> incl (op_fresh c o) N -> step c f b o = Ok (g, b') -> inv c N b'.
+Proof.
+  intros c N f b o g b' Hi Hn H. apply step_decide in H. destruct H as [e [D _]].
+  eapply decide_keeps_inv; eauto.
+Qed.
+
+Lemma step_owned_mono : forall c f b o g b' x,
+  step c f b o = Ok (g, b') -> In x (b_owned b) -> In x (b_owned b').
+Proof.
+  intros c f b o g b' x H Hx. apply step_decide in H. destruct H as [e [D _]].
+  eapply decide_owned_mono; eauto.
+Qed.
+
+(* frame: outside its cone, the outputs it owns and the writable query file a step changes nothing *)
+Lemma step_frame : forall c N f b o g b' x,
+  inv c N b -> incl (op_fresh c o) N -> step c f b o = Ok (g, b') ->
+  in_cone c N x = false -> ~ In x (b_owned b') -> wq c x = false -> lookup g x = lookup f x.
+Proof.
+  intros c N f b o g b' x Hi Hn H Hc Ho Hq.
+  assert (Hi' : inv c N b') by (eapply step_keeps_inv; eauto).
+  apply step_decide in H. destruct H as [e [D ->]].
+  apply lookup_apply_untouched. intro Ht.
+  destruct (decide_touched _ _ _ _ _ _ _ D Ht) as [T|[T|[T|T]]].
+  - destruct Hi as [I1 _]. destruct (I1 _ T) as [A|A]; [|congruence].
+    apply Ho. eapply decide_owned_mono; eauto.
+  - destruct Hi' as [I1 _]. destruct (I1 _ T) as [A|A]; [contradiction | congruence].
+  - destruct Hi as [_ [I2 _]]. rewrite (I2 _ T) in Hc. discriminate.
+  - congruence.
+Qed.
+
+Lemma fresh_cons : forall c o t, fresh_names c (o :: t) = op_fresh c o ++ fresh_names c t.
+Proof. reflexivity. Qed.
+
+Lemma incl_app_l : forall (A : Type) (l m n : list A), incl (l ++ m) n -> incl l n.
+Proof. intros A l m n H x Hx. apply H. apply in_or_app. auto. Qed.
+Lemma incl_app_r : forall (A : Type) (l m n : list A), incl (l ++ m) n -> incl m n.
+Proof. intros A l m n H x Hx. apply H. apply in_or_app. auto. Qed.
+
+Lemma exec_keeps_inv : forall c N t f b g b',
+  inv c N b -> incl (fresh_names c t) N -> exec c f b t = Ok (g, b') -> inv c N b'.
+Proof.
+  intros c N t. induction t as [|o t IH]; intros f b g b' Hi Hn H; simpl in H.
+  - inversion H; subst. assumption.
+  - destruct (step c f b o) as [[f1 b1]|code] eqn:S; [|discriminate].
+    rewrite fresh_cons in Hn. eapply IH; [| eapply incl_app_r; eauto | exact H].
+    eapply step_keeps_inv; eauto. eapply incl_app_l; eauto.
+Qed.
+
+Lemma exec_owned_mono : forall c t f b g b' x,
+  exec c f b t = Ok (g, b') -> In x (b_owned b) -> In x (b_owned b').
+Proof.
+  intros c t. induction t as [|o t IH]; intros f b g b' x H Hx; simpl in H.
+  - inversion H; subst. assumption.
+  - destruct (step c f b o) as [[f1 b1]|code] eqn:S; [|discriminate].
+    eapply IH; [exact H|]. eapply step_owned_mono; eauto.
+Qed.
+
+Lemma exec_frame : forall c N t f b g b' x,
+  inv c N b -> incl (fresh_names c t) N -> exec c f b t = Ok (g, b') ->
+  in_cone c N x = false -> ~ In x (b_owned b') -> wq c x = false -> lookup g x = lookup f x.
+Proof.
+  intros c N t. induction t as [|o t IH]; intros f b g b' x Hi Hn H Hc Ho Hq; simpl in H.
+  - inversion H; subst. reflexivity.
+  - destruct (step c f b o) as [[f1 b1]|code] eqn:S; [|discriminate].
+    rewrite fresh_cons in Hn.
+    assert (Hi1 : inv c N b1) by (eapply step_keeps_inv; eauto; eapply incl_app_l; eauto).
+    rewrite (IH f1 b1 g b' x Hi1 (incl_app_r _ _ _ _ Hn) H Hc Ho Hq).
+    apply (step_frame c N f b o f1 b1 x Hi (incl_app_l _ _ _ _ Hn) S Hc); [|assumption].
+    intro A. apply Ho. eapply exec_owned_mono; eauto.
+Qed.
+
+Lemma exec_sim : forall c N t f f' b g b',
+  inv c N b -> incl (fresh_names c t) N -> agree (region c N b) f f' ->
+  exec c f b t = Ok (g, b') ->
+  exists g', exec c f' b t = Ok (g', b') /\ agree (region c N b') g g' /\
+             (forall x, lookup f x = lookup f' x -> lookup g x = lookup g' x).
+Proof.
+  intros c N t. induction t as [|o t IH]; intros f f' b g b' Hi Hn Ha H; simpl in H.
+  - inversion H; subst. exists f'. simpl. auto.
+  - destruct (step c f b o) as [[f1 b1]|code] eqn:S; [|discriminate].
+    rewrite fresh_cons in Hn.
+    destruct (step_sim c N f f' b o f1 b1 Hi (incl_app_l _ _ _ _ Hn) Ha S) as [f1' [S' [Ha1 Hp1]]].
+    assert (Hi1 : inv c N b1) by (eapply step_keeps_inv; eauto; eapply incl_app_l; eauto).
+    destruct (IH f1 f1' b1 g b' Hi1 (incl_app_r _ _ _ _ Hn) Ha1 H) as [g' [E' [Ha' Hp']]].
+    exists g'. simpl. rewrite S'. split; [assumption|]. split; [assumption|].
+    intros x Hx. apply Hp'. apply Hp1. assumption.
+Qed.
+
+(* accept = exec + "a Return was seen" *)
+Lemma run_exec : forall c t f b i g,
+  run c f b t i = Accepted g <-> exists b', exec c f b t = Ok (g, b') /\ b_done b' = true.
+Proof.
+  intros c t. induction t as [|o t IH]; intros f b i g; simpl.
+  - destruct (b_done b) eqn:E; split.
+    + intro H. inversion H; subst. eauto.
+    + intros [b' [H D]]. inversion H; subst. reflexivity.
+    + discriminate.
+    + intros [b' [H D]]. inversion H; subst. congruence.
+  - destruct (step c f b o) as [[f1 b1]|code]; [apply IH|].
+    split; [discriminate | intros [b' [H _]]; discriminate].
+Qed.
+
+Lemma accept_exec : forall c f t g,
+  accept c f t = Accepted g <-> exists b', exec c f bk0 t = Ok (g, b') /\ b_done b' = true.
+Proof. intros. unfold accept. apply run_exec. Qed.
+
+(* ------------------------------------------------------------------ stale independence *)
+Lemma in_cone_outside : forall c N p, is_prefix (c_scratch c) p = false -> in_cone c N p = false.
+Proof.
+  intros c N p H. destruct (in_cone c N p) eqn:E; [|reflexivity].
+  unfold in_cone in E. apply existsb_exists in E. destruct E as [n [_ Hp]].
+  assert (X : is_prefix (c_scratch c) p = true).
+  { eapply is_prefix_trans; [|exact Hp]. apply is_prefix_spec. eauto. }
+  congruence.
+Qed.
+
+Lemma outside_scratch_spec : forall c p,
+  outside_scratch c = true -> p = c_query c \/ In p (c_inputs c) \/ In p (c_outputs c) ->
+  is_prefix (c_scratch c) p = false.
+Proof.
+  intros c p H Hp. unfold outside_scratch in H. rewrite forallb_forall in H.
+  apply negb_true_iff. apply H. simpl. destruct Hp as [->|Hp]; [auto|].
+  right. apply in_or_app. assumption.
+Qed.
+
+Lemma wq_spec : forall c p, wq c p = true <-> c_obsm c = true /\ p = c_query c.
+Proof.
+  intros. unfold wq. rewrite andb_true_iff, path_eqb_eq. reflexivity.
+Qed.
+
+Theorem stale_independence_thm : forall c t f1 f2 g1,
+  outside_scratch c = true -> mem (c_query c) (c_outputs c) = false ->
+  (forall p, In p (c_inputs c) -> lookup f1 p = lookup f2 p) ->
+  (c_obsm c = true -> lookup f1 (c_query c) = lookup f2 (c_query c)) ->
+  (forall p, in_cone c (fresh_names c t) p = true -> lookup f1 p = None /\ lookup f2 p = None) ->
+  accept c f1 t = Accepted g1 ->
+  exists g2, accept c f2 t = Accepted g2 /\
+    forall o, In o (c_outputs c) ->
+      lookup g1 o = lookup g2 o \/ (lookup g1 o = lookup f1 o /\ lookup g2 o = lookup f2 o).
+Proof.
+  intros c t f1 f2 g1 Hout Hq Hin Hqq Hcone H.
+  apply accept_exec in H. destruct H as [b' [E D]].
+  set (N := fresh_names c t) in *.
+  assert (Ha : agree (region c N bk0) f1 f2).
+  { intros p [Hp|[Hp|[Hp|Hp]]].
+    - destruct (Hcone p Hp) as [A B]. congruence.
+    - apply Hin. assumption.
+    - apply wq_spec in Hp. destruct Hp as [Ho ->]. apply Hqq. assumption.
+    - simpl in Hp. contradiction. }
+  destruct (exec_sim c N t f1 f2 bk0 g1 b' (inv_bk0 c N) (incl_refl _) Ha E) as [g2 [E2 [Ha2 _]]].
+  exists g2. split; [apply accept_exec; eauto|].
+  intros o Ho. destruct (mem o (b_owned b')) eqn:M.
+  - left. apply Ha2. right. right. right. apply mem_In. assumption.
+  - right. apply mem_false in M.
+    assert (C : in_cone c N o = false).
+    { apply in_cone_outside. apply outside_scratch_spec; auto. }
+    assert (Q : wq c o = false).
+    { destruct (wq c o) eqn:W; [|reflexivity]. apply wq_spec in W. destruct W as [_ ->].
+      apply mem_false in Hq. contradiction. }
+    split; eapply exec_frame; eauto using inv_bk0, incl_refl.
+Qed.
